@@ -427,6 +427,59 @@ def walk_and_poke(obj, rng, depth=0):
             walk_and_poke(v[0], rng, depth + 1)
 
 
+def failed_loads(ctx, n):
+    """A load() that fails (a member of an unknown type in one of its structures) leaves nothing half-defined behind:
+    the corrected text loads afterwards and defines what it defines on a fresh object; what the failed text defined
+    before the failure point stays usable."""
+    from ..engine import type_sig
+
+    for i in range(n):
+        rng = ctx.rng("failed-loads", i)
+        case = engine.make_case(rng, dyn_unions=False)
+        top = case["top"]
+        text = case["text"]
+        # break the top-level structure (the last declaration) by a member of an unknown type, at a random position
+        lines = text.rstrip("\n").split("\n")
+        last = lines[-1]
+        if "{" not in last or not last.startswith(("struct T", "typedef struct")):
+            continue
+        k = last.index("{") + 1
+        semis = [m for m in range(k, len(last)) if last[m] == ";" and last[:m].count("{") - last[:m].count("}") == 1]
+        cut = rng.choice([k] + [m + 1 for m in semis[:-1]]) if semis else k
+        broken = "\n".join(lines[:-1] + [last[:cut] + " vf_no_such_type_t vf_bad; " + last[cut:]]) + "\n"
+        cfgd = {"endian": rng.choice("<>"), "align": rng.random() < 0.5, "compiled": rng.random() < 0.5, "ptr": "uint64"}
+        det = {"broken": broken, "text": text, "cfg": cfgd, "workload": "failed-loads"}
+        ctx.evaluation(("failed-load", broken, tuple(sorted(cfgd.items()))))
+        ctx.cell("failed-load-then-corrected-load")
+        try:
+            ref = lib.load(text, cfgd["endian"], cfgd["align"], cfgd["compiled"])
+        except Exception:  # noqa: BLE001
+            continue
+        cs = lib.cstruct(endian=cfgd["endian"])
+        try:
+            cs.load(broken, compiled=cfgd["compiled"], align=cfgd["align"])
+            ctx.event("broken_text_accepted")       # (the unknown type was inside something optional)
+            continue
+        except Exception:  # noqa: BLE001
+            pass
+        try:
+            # only what the failed load did not get to is loaded again (earlier declarations are defined already)
+            cs.load(lines[-1] + "\n", compiled=cfgd["compiled"], align=cfgd["align"])
+        except Exception as e:  # noqa: BLE001
+            ctx.violation("history", f"corrected-definition-refused-after-a-failed-load:{type(e).__name__}",
+                          dict(det, error=lib.exc_sig(e)))
+            continue
+        data = gen.arbitrary_bytes(rng, 128, 2)
+        a, b = engine.outcome(cs.T, data), engine.outcome(ref.T, data)
+        va = (a[0], norm_or_err(a[1], top)[0] if a[0] == "ok" else type(a[1]).__name__, a[2])
+        vb = (b[0], norm_or_err(b[1], top)[0] if b[0] == "ok" else type(b[1]).__name__, b[2])
+        if type_sig(cs.T) != type_sig(ref.T) or va != vb:
+            ctx.violation("history", "definitions-after-a-failed-load-differ-from-a-fresh-object", dict(det, got=repr(va)[:300],
+                                                                                                      want=repr(vb)[:300]))
+        else:
+            ctx.event("failed_loads_checked")
+
+
 def load_histories(ctx, n):
     """Several load() calls on one cstruct object: what a load defines depends on its own text and options only, not
     on the options of an earlier load (align / compiled given there and omitted here) nor on equally named inline
@@ -494,6 +547,7 @@ def run(ctx):
         custom_types(ctx)
     load_histories(ctx, 6 if not ctx.thorough else 120)
     copies(ctx, 10 if not ctx.thorough else 250)
+    failed_loads(ctx, 8 if not ctx.thorough else 150)
     for i in range(N_HIST[ctx.tier]):
         if ctx.out_of_time():
             break
@@ -517,6 +571,9 @@ def replay(ctx, detail):
     struct_cache(ctx)
     if detail.get("workload") == "custom-types":
         custom_types(ctx)
+        return
+    if detail.get("workload") == "failed-loads":
+        failed_loads(ctx, 150)
         return
     if detail.get("workload") == "copies":
         copies(ctx, 250)
